@@ -20,6 +20,7 @@ CONSTANTS Configs,       \* set of configuration records
           MaxLocal,      \* evaluations of a local search: 1..MaxLocal
           AllowSelfStop, \* CMA-ES internal stop explored?
           EmitScripts,   \* print one scenario script per terminal state?
+          AllowManual,   \* caller-driven stepping: run_step() also when the global condition holds / after run() returned
           ExactOffers    \* scenario export: parents offer no more than the filters let through (the real run can
                          \* then follow the script literally; cutting is covered by the corpus and Sprout.tla)
 
@@ -120,7 +121,14 @@ Sprout ==
                /\ Note([a |-> "round", offers |-> [i \in DOMAIN Parents(st) |-> <<Parents(st)[i], O[Parents(st)[i]]>>],
                         kept |-> R])
 
-Next == ChildInit \/ LoopCheck \/ Begin \/ Iter \/ GenGsc \/ Lsc \/ LocalRun \/ PostGsc \/ Sprout
+\* the caller steps the tree itself (DemeTree.run_step is public): a step begins whatever the global condition says
+ManualStep ==
+    /\ AllowManual
+    /\ st.pc \in {"loop", "done"} /\ st.pendingInit = <<>>
+    /\ st' = DoLoopCheck([st EXCEPT !.pc = "loop"], FALSE)
+    /\ Note([a |-> "manual_step"])
+
+Next == ManualStep \/ ChildInit \/ LoopCheck \/ Begin \/ Iter \/ GenGsc \/ Lsc \/ LocalRun \/ PostGsc \/ Sprout
 
 Spec == Init /\ [][Next]_vars
 
@@ -160,6 +168,7 @@ Inv_G_ClockNotAhead            == G_ClockNotAhead(st)
 Inv_G_ClockInSync              == G_ClockInSync(st)
 Inv_G_SinceSproutRawNonNeg     == G_SinceSproutRawNonNeg(st)
 Inv_G_SinceSproutBounded       == G_SinceSproutBounded(st)
+Inv_G_WoundDownOneStepLater    == G_WoundDownOneStepLater(st)
 \* expected to be VIOLATED (witness): with hibernation the raw distance to the last sprout does go negative
 Inv_G_SinceSproutRawNonNegAlways == \A d \in Ids(st) : st.D[d].active => SinceSproutRaw(st, d) >= 0
 
